@@ -51,6 +51,70 @@ CHECKS = {
             "Directive.to_text emits heading, options, blank line iff content, content.", "DESIGN.md 5/C20"),
 }
 
-_PENDING = "check not built yet in this session (static rules designed in DESIGN.md section 5; being implemented)"
-NOT_APPLICABLE = {p: _PENDING for p in
-                  ["C01", "C02", "C03", "C04", "C05", "C07", "C08", "C09", "C10", "C11", "C12", "C16", "C19"]}
+
+CHECKS.update({
+    "C01": ("flow-integrity dataflow (ctx -> cleaner -> doc field -> .text on own directive) + strip-parameter analysis of the cleaner + ATN token order/non-greedy facts",
+            "All paths of the callbacks, the 13 constructor sites, all 12 render methods and the cleaning function: the doc text that a "
+            "processor stores is the cleaned text of this command's own doccomment, every kind renders it exactly once unmodified on its "
+            "own directive, Paragraph only splits on '\\n' and prefixes, the cleaner's slices/strips have exactly the parameters the "
+            "canonical form needs (indent from the closing line, lstrip set with '#' and no alnum/space, one guarded space), the input is "
+            "decoded as UTF-8, doccomment tokens win over comment tokens and are non-greedy. Not decided: character-level result for "
+            "non-canonical doccomments.", "DESIGN.md 5/C01"),
+    "C02": ("typestate/effect table of the listener over a finite predicate abstraction (all command kinds x DOC/UNDOC x state atoms) vs protocol table; ATN grammar equivalence; render-term table",
+            "Exhaustive over the abstraction: for every command kind, event shape and valuation of the atoms the callbacks consult, "
+            "the entries appended, the pending-declaration slot and the consumed set behave as the property prescribes under default "
+            "flags; the entry list is only appended to and rendered front to back; each kind renders as its directive; cmake_file and "
+            "its alternative order are as the effect model assumes. Thorough adds abstract trace exploration (all well-nested event "
+            "sequences up to length 7) of the extracted table.", "DESIGN.md 5/C02"),
+    "C03": ("definition-stack typestate from the effect table + binding terms + signature template terms",
+            "Exhaustive over the abstraction and all flag valuations: one push per definition event on every non-error path, one pop per "
+            "end command, cmake_parse_arguments marks index -1 only under non-emptiness and only a documenting element; name = arg0 "
+            "unstripped, params = args[1:] through re.sub(kind's pattern), kwargs trigger in doc; '**kwargs' appended once, last, iff "
+            "has_kwargs. Regex semantics are not decided.", "DESIGN.md 5/C03"),
+    "C04": ("ATN action/language analysis of skipped tokens, position-taint lint, case-fold dominance, uniform-indent analysis",
+            "Structural necessary conditions: exactly the four trivia rules end in `skip` on every accepting path and have the manual's "
+            "languages; positions reach only logs/exceptions; every command-name read is case folded before use; the indent bound is one "
+            "value measured on the closing line. The CRLF clause is not decided.", "DESIGN.md 5/C04"),
+    "C05": ("regular-language equivalence of token/parser rules with cmake-language(7) by DFA product; generated-guard vs ATN FIRST sets; dispatch crash table",
+            "Per-rule language equality (shortest counterexample printed) for identifier, unquoted, quoted, bracket (levels 0..3, "
+            "thorough 0..5), escapes, comments, newline, space and the three parser rules; generated guards equal the ATN's FIRST sets; "
+            "UTF-8 decode; runtime pin; no CRASH effect in the dispatch table (known finding: a command named generic_command). "
+            "Maximal-munch interplay and the CMake corpus are not decided.", "DESIGN.md 5/C05"),
+    "C07": ("receiver-ownership analysis of render emissions + template/indent analysis of rstwriter",
+            "Nesting clause only: every emission of every entry kind has a receiver that descends from the one directive the entry "
+            "created on the incoming writer, members are rendered on the class directive, all nested element lines start with the "
+            "indent, the heading is element 0 and the module entry is first. docutils validity is not decided.", "DESIGN.md 5/C07"),
+    "C08": ("include-flag independence on the effect table with symbolic flag atoms (covers all 2^10 valuations), flag/processor/YAML table agreement",
+            "Exhaustive over the abstraction: effects of DOC(k) are equal under all flag valuations; UNDOC(k) with flag off only drops "
+            "the entry/attachment and keeps the stacks balanced; no other flag is consulted. Known finding F8 (documented cpp_class with "
+            "its flag off pushes a None placeholder), pinned by two goldens.", "DESIGN.md 5/C08"),
+    "C09": ("class-stack typestate from the effect table + binding terms + class render terms",
+            "Exhaustive over the abstraction (default flags): push/pop/attach discipline, inner-class registration before push, claim of "
+            "implementing definitions; field bindings of Method/Attribute/Class; render blocks use the same field in guard, heading "
+            "and loop, parameter i paired with type i, macro note iff is_macro, value option iff default. Thorough adds trace exploration.",
+            "DESIGN.md 5/C09"),
+    "C10": ("interval partition of the argument count + binding terms + enum exhaustiveness of the rendering",
+            "All argument counts (interval reasoning over len(args)), all VarType members: UNSET/STRING/LIST classification, quote "
+            "stripping of exactly one leading/trailing quote, list join by one space, option argument positions and 'OFF' default.",
+            "DESIGN.md 5/C10"),
+    "C11": ("keyword-scan loop summaries + value-filter lint + sibling clone diff + render terms",
+            "All three processors: NAME/EXPECTFAIL scans have the prescribed guard and index, CMakeTest siblings are alpha-equal, the CTest "
+            "signature excludes by position, EXPECTFAIL shown iff flag, three distinct warnings, one entry per test/section event.",
+            "DESIGN.md 5/C11"),
+    "C12": ("path-sensitive title/module terms of document_single_file, taint to names, heading length domain, module-entry effects, ATN token facts",
+            "Structural: on every abstract path title and module are [ext-strip iff option off]([prefix+sep+] relpath|basename); no ABS "
+            "label reaches a name; heading lines are |title|*|char| and rebuilt by the setter; exactly one default module entry at index 0 "
+            "iff none exists; @module tokens cannot attach to a command; top-directory test compares with '.'. Injectivity of names is "
+            "not decided.", "DESIGN.md 5/C12"),
+    "C16": ("call-order analysis on main(), argparse table vs template, three-way agreement template/dataclass/YAML, settings-construction dataflow",
+            "Call order and tables: set_file < set_args(dots=True) < get(template), nothing set afterwards; dotted destinations are "
+            "template paths with default None; keys and types agree three ways; exclude filters = all_contents() after validation; "
+            "relative_to_config selects the Filename flavour; Settings built from the validated dict only. confuse's own precedence "
+            "and type rejection are trusted.", "DESIGN.md 5/C16"),
+    "C19": ("structural analysis of cmake/cminx.cmake (tokenizer + block matcher) and the package config template",
+            "All statements of cminx_gen_rst: the executable runs unconditionally with COMMAND_ERROR_IS_FATAL, input and '-o' output "
+            "quoted in place, options expanded unquoted, '-r' only under if(IS_DIRECTORY <input>) without else, ARGN forwarded "
+            "unfiltered, CMINX_EXECUTABLE defined before the include. CMake's list semantics for ';' are not decided.", "DESIGN.md 5/C19"),
+})
+
+NOT_APPLICABLE = {}
